@@ -83,7 +83,8 @@ def one(ctx, sk, curve, dom, d, k, digest, at, cls_hint, keybase, via="sign_dige
         cls = cls_hint if cls_hint.startswith("prod.s_zero") else "rszero.s"
     else:
         cls = cls_hint
-    ctx.case(cls, key="%s|%s" % (keybase, "t" if at else "f"))
+    ctx.case(cls, key="%s|%s" % (keybase, "t" if at else "f"),
+             sample=dict(curve=curve.name, d=d, k=k, digest=digest, allow_truncate=at, via=via, reference=want_exc or want, library=outcome or list(got)[:2]) if ctx.want(cls) else None)
     ok = True
     msg = None
     if want_exc is not None:
